@@ -297,7 +297,7 @@ CLAIMED["C20"] = dict(
          "the sum test looks at the parsed weights themselves (no per-weight truncation), compares with 1 under a tolerance finer than "
          "the fallback resolution and sends a nan sum to the replaced side; a malformed weight is handled as missing; the monitor's "
          "positional weight list is filled in stage order."
-         " Every write of the set the stage selectors read is under the lock; a malformed weight is replaced in the status report too.",
+         " Every write of the set the stage selectors read is under the lock; a malformed weight is replaced in the status report too; the loader maps the keys of the status report to stage indices as the status monitor does.",
     technique="guard-existence and edge-dominance on the CFG, symbolic shape of the replacement numerators, constant agreement, "
               "sibling cross-check of the two normalisation sites",
     design="3/C20")
